@@ -46,12 +46,44 @@ FLOORS = {"pair:shared-differs": (4000, 100000), "astral-text-differs": (300, 80
 ZOO_NAMES = schemas.GROUP_V + schemas.GROUP_X + schemas.MARK_VARIANTS
 
 
+_STRUCTURED_PAIRS = [
+    ([], ["w"]),
+    (["w"], ["w", "d"]),
+    (["w", "d"], ["w", "d"]),
+    ({"k": []}, {"k": ["w"]}),
+    ({"k": 1}, {"k": 1, "j": 2}),
+    ([1, [2]], [1, [2, 3]]),
+    ({"k": {"j": [1]}}, {"k": {"j": [1]}}),
+    ("", []),
+    (0, ""),
+    ([0], [0, 0]),
+]
+
+
 def generate(R: Draw, tier: str) -> dict:
     sref = schemas.pick_schema(R, ZOO_NAMES, p_random=0.25)
     lib, rs = schemas.get(sref)
     g = docgen(rs)
     a = g.doc(R, R.weighted([("tiny", 2), ("small", 5), ("medium", 2)]))
-    kind = R.weighted([("mutate", 6), ("rebuild", 1), ("independent", 1), ("replace", 2)])
+    kind = R.weighted([("mutate", 6), ("rebuild", 1), ("independent", 1), ("replace", 2), ("structured-attr", 2)])
+    if kind == "structured-attr":
+        # two versions of one node whose attributes differ only inside a list / dict value (one a prefix or a subset
+        # of the other, equal copies, nested), optionally with a further change inside the node
+        import copy
+
+        cand = [p for p in mu.paths(a) if p and mu.get_at(a, p)["t"] != "text" and rs.nodes[mu.get_at(a, p)["t"]].get("attrs")]
+        kind = "mutate"
+        if cand:
+            path = R.choice(cand)
+            name = R.choice(sorted(rs.nodes[mu.get_at(a, path)["t"]]["attrs"]))
+            v1, v2 = R.choice(_STRUCTURED_PAIRS)
+            if R.bool():
+                v1, v2 = v2, v1
+            a = mu.replace_at(a, path, lambda n: {**n, "a": {**n["a"], name: copy.deepcopy(v1)}})
+            b = mu.replace_at(a, path, lambda n: {**n, "a": {**n["a"], name: copy.deepcopy(v2)}})
+            if R.bool(0.5):
+                b = mu.mutate(R, g, b)
+            return {"schema": sref, "a": a, "kind": "mutate", "b": b, "structured": True}
     case = {"schema": sref, "a": a, "kind": kind}
     if kind == "mutate":
         b = a
@@ -90,6 +122,8 @@ def _astral_involved(ta: list, tb: list, k: int) -> bool:
 
 def check(case: dict, ctx: Ctx) -> None:
     lib, rs = schemas.get(case["schema"])
+    if case.get("structured"):
+        ctx.label("attrs:structured-values")
     a_plain = case["a"]
     a = P.build(lib, a_plain)
     kind = case["kind"]
